@@ -3,4 +3,54 @@
 module E = Twmodel_ext
 open Util
 
-let oracle (_f : string list) (_impl : string) : string = "na"
+let split_on c s = String.split_on_char c s
+
+(* "T:lithex:sl:sc:el:ec;..." -> extracted tokens *)
+let parse_tokens (s : string) : E.token list option =
+  try
+    let all = Array.of_list E.all_toks in
+    Some
+      (List.map
+         (fun t ->
+           match split_on ':' t with
+           | [ ty; lit; sl; sc; el; ec ] ->
+               { E.ttype = all.(int_of_string ty);
+                 E.tlit = bytes_of_string (unhex lit);
+                 E.tsl = nat_of_int (int_of_string sl);
+                 E.tsc = nat_of_int (int_of_string sc);
+                 E.tel = nat_of_int (int_of_string el);
+                 E.tec = nat_of_int (int_of_string ec) }
+           | _ -> failwith "token")
+         (split_on ';' s))
+  with _ -> None
+
+let reason_c19 = function
+  | 1 -> "token stream does not end in EOF"
+  | 2 -> "EOF is not just past the last byte"
+  | 3 -> "bytes between the last token and EOF are not blank/comment"
+  | 4 -> "tokens after EOF"
+  | 5 -> "token overlaps its predecessor or is out of order"
+  | 6 -> "token ends before it starts"
+  | 7 -> "token ends past the input"
+  | 8 -> "gap before token holds something other than whitespace-in-code or comments"
+  | 9 -> "bytes of the token's range are not the token's own text"
+  | 10 -> "a token position is not the (line, column) of any byte offset"
+  | n -> "reason " ^ string_of_int n
+
+let oracle_c19 (src : string) (impl : string) : string =
+  match split_on '\t' impl with
+  | [ "LEX"; toks ] -> (
+      match parse_tokens toks with
+      | None -> "FAIL:unparsable token list (overrun?)"
+      | Some ts -> (
+          match E.check_tokens (bytes_of_string src) ts with
+          | None -> "ok"
+          | Some r -> "FAIL:" ^ reason_c19 (int_of_nat r)))
+  | "HANG" :: _ -> "FAIL:lexer did not return"
+  | "PANIC" :: _ | "CRASH" :: _ -> "FAIL:lexer crashed"
+  | _ -> "FAIL:unexpected observation"
+
+let oracle (f : string list) (impl : string) : string =
+  match f with
+  | id :: "lex" :: src :: _ when starts_with "C19" id -> oracle_c19 (unhex src) impl
+  | _ -> "na"
